@@ -65,6 +65,13 @@ func Run(lim Limits, run func(t *tape.Tape) Outcome) *Result {
 			}
 		}
 		w.SetFrac(big.NewInt(1), den)
+		if len(t.Path) >= 200000 {
+			// a generation that keeps drawing: its subtree cannot be enumerated
+			res.Anomalies = append(res.Anomalies, "runaway generation: more than 200000 draws in one call")
+			rest := new(big.Rat).Sub(one, resolved)
+			res.Unresolved.Set(rest)
+			break
+		}
 		if t.ExtraRead {
 			res.Anomalies = append(res.Anomalies, "extra read after scripted word at draw path "+pathString(t.Path))
 		}
